@@ -221,10 +221,19 @@ func TestC37Wire(t *testing.T) {
 		wc.slots = make([]*wclient, nSlots)
 		defer func() {
 			// teardown on every path: open all gates, close all sockets, join the server
+			// (a driver connection is used by one goroutine at a time: a statement still running in
+			// the background is joined before the connection object is closed)
 			for _, c := range wc.slots {
 				if c != nil {
 					if c.pending != nil {
-						close(w.gates.get(c.gateK).release)
+						w.gates.get(c.gateK).open()
+						c.raw.Close()
+						select {
+						case <-c.pending:
+						case <-time.After(watchdog):
+							inconclusive(st, "teardown: statement %q on connection %d did not return", c.gateQ, c.id)
+						}
+						c.pending = nil
 					}
 					c.raw.Close()
 					c.dc.Close()
@@ -262,7 +271,7 @@ func TestC37Wire(t *testing.T) {
 			},
 			"release": func(rt *rapid.T) {
 				i, c := wc.pick(rt, "c", isBlocked)
-				close(w.gates.get(c.gateK).release)
+				w.gates.get(c.gateK).open()
 				r := wc.await(c)
 				wc.logf("client %d (id %d): gate opened, %q -> rows=%v err=%v", i, c.id, c.gateQ, r.rows, r.err)
 				// never killed (a killed statement is awaited by the kill step): must complete normally
@@ -365,7 +374,7 @@ func TestC37Wire(t *testing.T) {
 		// wind down: open all gates (never-killed statements must complete), everybody leaves
 		for _, i := range wc.live(isBlocked) {
 			c := wc.slots[i]
-			close(w.gates.get(c.gateK).release)
+			w.gates.get(c.gateK).open()
 			r := wc.await(c)
 			wc.logf("client %d (id %d): gate opened at the end, %q -> rows=%v err=%v", i, c.id, c.gateQ, r.rows, r.err)
 			if r.err != nil || len(r.rows) != 1 {
